@@ -231,6 +231,10 @@ def run_harness(module, mode, out, **kw):
     return time.time() - t0
 
 
+def is_init_line(line):
+    return '"name":"Init"' in line[:1000]
+
+
 def split_trace(path, shards, workdir, max_lines=1500):
     """Split a concatenated trace at Init lines into files of <= max_lines
     (whole traces only).  Returns [(file, first_global_line_index)]."""
@@ -240,7 +244,7 @@ def split_trace(path, shards, workdir, max_lines=1500):
     with open(path) as f:
         for line in f:
             idx += 1
-            is_init = line.startswith('{"ev":{') and '"name":"Init"' in line[:400]
+            is_init = is_init_line(line)
             if cur is None or (is_init and cur_n >= max_lines):
                 if cur:
                     cur.close()
@@ -295,7 +299,7 @@ def extract_subtrace(trace_file, line_no):
     lines = []
     with open(trace_file) as f:
         for i, line in enumerate(f, 1):
-            if '"name":"Init"' in line[:400]:
+            if is_init_line(line):
                 lines = []
             lines.append(line)
             if i == line_no:
@@ -307,7 +311,7 @@ def count_traces(trace_file):
     n = 0
     with open(trace_file) as f:
         for line in f:
-            if '"name":"Init"' in line[:400]:
+            if is_init_line(line):
                 n += 1
     return n
 
